@@ -119,10 +119,17 @@ class C04(Prop):
                     tup = [rnd.choice(names) for _ in range(rnd.randint(1, 4))]
                     lines.append('q a disjoint [ %s ]' % ' '.join(tup))
             scripts.append(lines)
+        # deep complexes: a full simplex on 7 (thorough: also 8) points -- stars and closures that span
+        # six and more orders -- alone and next to a second component
+        for k in ((6,) if tier == 'quick' else (6, 7)):
+            scripts.append(['! gen simplex a %d sTOP -' % k, 'sync a', 'check c04 a %d' % rnd.randrange(10 ** 6),
+                            'q a partof sTOP 0 0', 'q a closure sTOP 1 1'])
+        scripts.append(['! gen simplex a 6 - -', '! add a [ ] i0 -', '! add a [ ] s -', '! add a [ i0 s ] () -', 'sync a',
+                        'check c04 a %d' % rnd.randrange(10 ** 6)])
         # complexes reached by random histories (mixed names, deletions, relabelling)
         n = 30 if tier == 'quick' else 600
         for i in range(n):
-            g = gen.Gen(rnd, pool=('mix', 'tup', 'str', 'int', 'flt')[i % 5], bad=0.15, snap=False,
+            g = gen.Gen(rnd, pool=('mix', 'tup', 'str', 'int', 'flt')[i % 5], bad=0.15, snap=False, pad=(12 if i % 6 == 5 else 0),
                         after=['sync a', 'check c04 a {seed}'] if i % 2 else ())
             for _ in range(rnd.randint(6, 18)):
                 g.step()
@@ -407,7 +414,8 @@ class C09(Prop):
             pts = [l.split()[4] for l in lines if l.startswith('add a [ ]') and l.split()[4] != '-'][:5]
             if len(pts) < 2:
                 continue
-            lines += ['emb e a 2']
+            mt = rnd.choice([None, None, 'wrap', 'half', 'manhattan'])
+            lines += ['embm e a 2 %s' % mt if mt else 'emb e a 2']
             P = lambda: '[ %s %s ]' % (float(rnd.randint(0, 3)).hex(), float(rnd.randint(0, 3)).hex())
             for x in pts:
                 lines.append('pos e %s %s' % (x, P()))
@@ -522,7 +530,7 @@ class C12(Prop):
                 pts = [[rnd.randint(0, 12) / 10.0 for _ in range(dim)] for _ in range(npts)]
             else:
                 pts = [[rnd.uniform(-2, 2) for _ in range(dim)] for _ in range(npts)]
-            metric = rnd.choice([None, None, 'manhattan', 'chebyshev'])
+            metric = rnd.choice([None, None, None, 'manhattan', 'chebyshev', 'half', 'wrap'])
             names = rnd.sample([1, 2, 3, 4, 5, 6, 7, 'a', 'b', (1, 2)], npts)
             lines = ['new p'] + ['add p [ ] %s -' % tok(x) for x in names]
             lines.append(('embm e p %d %s' % (dim, metric)) if metric else 'emb e p %d' % dim)
